@@ -27,7 +27,7 @@ var c13CloseCodes = []int{1000, 1001, 1006, 4001, 4452, 0, 65535}
 func enumC13(t *testing.T, tier string) []string {
 	maxR, maxW := 0, 0
 	for i := 0; i < 6; i++ {
-		spec := RunSpec{Prop: "C13", Variant: "none", Seed: uint64(1000 + i), Tier: tier}
+		spec := RunSpec{Prop: "C13", Variant: "none", Seed: uint64(1000 + i), Tier: tier, Feat: FeatAll}
 		if i == 0 {
 			spec.Replay = []int{}
 		}
